@@ -310,6 +310,11 @@ class Obl:
         o.queries = sum(e.queries for e in ex_list) + extra_queries
         o.solver_s = sum(e.solver_s for e in ex_list) + extra_solver
         o.paths = paths
+        unres = sorted({u for e in ex_list for u in getattr(e, 'unresolved_local', ())})
+        if status == 'violated' and unres:
+            status, detail = 'inconclusive', (f'not decidable here: the paths run through {", ".join(unres[:3])} - trait methods of this crate called on a generic parameter, '
+                                              f'whose instantiation this executor does not substitute (would-be finding: {detail})')
+            key = None
         o.status, o.detail, o.sample, o.key = status, detail, sample, key
         return o
 
@@ -484,7 +489,9 @@ def struct_fields(relpath, name):
             src = fnroles.apply_type_renames(src, tren)
         pairs = _parse_struct(src, name)
         if pairs is not None:
-            return Fields(pairs, name, relpath)
+            fs_ = Fields(pairs, name, relpath)
+            fs_.found_in = rp           # the file that declares the struct today (it may have moved within the directory)
+            return fs_
     raise NotFound(f'struct {name} in {relpath}')
 
 
@@ -643,12 +650,12 @@ def bind_args(fn, relpath, fixed, bindings):
     return args
 
 
-def flatten_args(vals):
-    """call arguments with plain struct aggregates (parameter bundles) replaced by their fields, in order"""
+def flatten_args(vals, keep=()):
+    """call arguments with plain struct aggregates (parameter bundles) replaced by their fields, in order (structs named in `keep` stay whole)"""
     out = []
     for v in vals:
-        if isinstance(v, Agg) and v.variant is None and v.kind not in ('tuple', 'array'):
-            out.extend(flatten_args(v.fields))
+        if isinstance(v, Agg) and v.variant is None and v.kind not in ('tuple', 'array') and v.name not in keep:
+            out.extend(flatten_args(v.fields, keep))
         else:
             out.append(v)
     return out
